@@ -583,6 +583,101 @@ func runC10(c *Ctx) {
 		}
 	}
 
+	// ---- parent signatures whose bytes happen to read as CBOR themselves (a byte-string head followed by
+	// exactly that many bytes, an empty byte string, an array head): they are signature bytes like any others,
+	// wrapped once in the structure, and X is another parent than head||X ----
+	{
+		k0 := c.Keys.Keys[3] // Ed25519: deterministic, fast
+		rr := mon.NewRand(uint64(c.Seed)).Sub(48500)
+		x62, x30 := rr.Bytes(62), rr.Bytes(30)
+		shapes := []struct {
+			name       string
+			sig, inner []byte
+		}{
+			{"58-3e-then-62-bytes", append([]byte{0x58, 0x3e}, x62...), x62},
+			{"5e-then-30-bytes", append([]byte{0x5e}, x30...), x30},
+			{"41-then-1-byte", []byte{0x41, 0x07}, []byte{0x07}},
+			{"59-003e-then-62-bytes", append([]byte{0x59, 0x00, 0x3e}, x62...), x62},
+			{"empty-bstr-head", []byte{0x40}, nil},
+			{"array-of-two-ints", []byte{0x82, 0x01, 0x02}, nil},
+			{"tagged-bstr", append([]byte{0xc2, 0x58, 0x3e}, x62...), x62},
+		}
+		protP := cose.ProtectedHeader{int64(1): cose.AlgorithmES256}
+		pc, _ := refcose.ProtectedContent(protP, gen.Custom)
+		for _, sh := range shapes {
+			for kind := 0; kind < 3; kind++ {
+				mk := func(sig []byte) (any, refcose.ParentKind, []byte) {
+					switch kind {
+					case 0:
+						return &cose.Sign1Message{Headers: cose.Headers{Protected: protP}, Payload: []byte("payload"), Signature: sig}, refcose.PSign1, []byte("payload")
+					case 1:
+						return &cose.Signature{Headers: cose.Headers{Protected: protP}, Signature: sig}, refcose.PSignature, sig
+					default:
+						return &cose.Countersignature{Headers: cose.Headers{Protected: protP}, Signature: sig}, refcose.PSignature, sig
+					}
+				}
+				for _, ext := range [][]byte{nil, []byte("ext")} {
+					parent, pk, payloadPos := mk(sh.sig)
+					cell := fmt.Sprintf("cbor-shaped-parent-signature/%s/kind=%d/ext=%s", sh.name, kind, gen.ExternalClass(ext))
+					in := map[string]any{"cell": cell, "parent_signature": hexs(sh.sig)}
+					cs := &cose.Countersignature{Headers: cose.Headers{Protected: cose.ProtectedHeader{int64(1): cose.AlgorithmES256}}}
+					spy, spy0 := &mon.SpySigner{Alg: cose.AlgorithmES256}, &mon.SpySigner{Alg: cose.AlgorithmES256}
+					var e1, e2 error
+					if guard(rec, "countersigning a parent with a CBOR-shaped signature", in, func() {
+						e1 = cs.Sign(gen.Entropy, spy, parent, ext)
+						_, e2 = cose.Countersign0(gen.Entropy, spy0, parent, ext)
+					}) {
+						continue
+					}
+					rec.Eval(2)
+					rec.Event("cbor-shaped-parent-signature")
+					rec.Class(cell)
+					sc := []byte{0xa1, 0x01, 0x26}
+					want := refcose.CountersignStructure(pk, false, true, pc, sc, ext, payloadPos, sh.sig)
+					if e1 != nil || spy.Calls != 1 || !eqBytes(spy.Last(), want) {
+						rec.Violate("tbs-mismatch", cell+"/full", fmt.Sprintf("err=%v signer got %s\nreference %s", e1, hexs(spy.Last()), hexs(want)), in)
+						continue
+					}
+					w0a := refcose.CountersignStructure(pk, true, true, pc, []byte{}, ext, payloadPos, sh.sig)
+					w0b := refcose.CountersignStructure(pk, true, false, pc, nil, ext, payloadPos, sh.sig)
+					if e2 != nil || spy0.Calls != 1 || (!eqBytes(spy0.Last(), w0a) && !eqBytes(spy0.Last(), w0b)) {
+						rec.Violate("tbs-mismatch", cell+"/abbreviated", fmt.Sprintf("err=%v signer got %s\nreference %s", e2, hexs(spy0.Last()), hexs(w0a)), in)
+						continue
+					}
+					// binding with a real key: made over head||X, not valid for X (and the reverse)
+					if len(sh.inner) == 0 {
+						continue
+					}
+					other, _, _ := mk(sh.inner)
+					real := &cose.Countersignature{Headers: cose.Headers{Protected: cose.ProtectedHeader{int64(1): k0.Alg}}}
+					if real.Sign(gen.Entropy, k0.Signer, parent, ext) != nil {
+						continue
+					}
+					sig0, e0 := cose.Countersign0(gen.Entropy, k0.Signer, parent, ext)
+					var v1, v2, v3, v4 error
+					if guard(rec, "verifying against the unwrapped parent", in, func() {
+						v1 = real.Verify(k0.Verifier, parent, ext)
+						v2 = real.Verify(k0.Verifier, other, ext)
+						if e0 == nil {
+							v3 = cose.VerifyCountersign0(k0.Verifier, parent, ext, sig0)
+							v4 = cose.VerifyCountersign0(k0.Verifier, other, ext, sig0)
+						} else {
+							v4 = e0
+						}
+					}) {
+						continue
+					}
+					if v1 != nil || v3 != nil {
+						rec.Violate("binding", cell+"/own-parent", fmt.Sprintf("does not verify against its own parent: %v / %v", v1, v3), in)
+					}
+					if v2 == nil || v4 == nil {
+						rec.Violate("binding", cell+"/unwrapped-parent", "a countersignature over a parent with signature head||X verifies against the parent with signature X", in)
+					}
+				}
+			}
+		}
+		rec.Require("cbor-shaped-parent-signature", 40)
+	}
 	// ---- (c) refusals ----
 	k := c.Keys.Keys[0]
 	signed := &cose.Sign1Message{Headers: cose.Headers{Protected: cose.ProtectedHeader{int64(1): k.Alg}}, Payload: []byte("p")}
